@@ -316,18 +316,25 @@ theorem resumeList_next (x : Node) (b : Block) (rest : List Block) (hm : x.reg.d
 theorem runMacro_db (n : Node) (l : List Step) (hl : ∀ s ∈ l, s.handler = true) : (runMacro n l).reg.db = n.reg.db := by
   rw [runMacro_reg]; exact (foldl_stepReg_handler_db n.reg l hl).1
 
-/-- A block that does not panic is interrupted by a crash or a failing write at write index `k` (anywhere: inside
-    the transaction, inside a key-manager call, inside the decided-history cleanup, at the marker write, at the
-    commit), the node restarts on what survived and resumes from the stored marker + 1. Unless the fault fell between
-    the account record and the wallet index of an AddShare, the stream ends exactly where the uninterrupted run ends. -/
-theorem fault_resume (me : Nat) (n : Node) (b : Block) (rest : List Block) (kind : FaultKind) (k : Nat)
+/-- what a fault in block `b` (processed from the state `n` between blocks) leaves to the restarted process `x` -/
+inductive FaultOutcome (me : Nat) (n : Node) (b : Block) (x : Node) : Prop where
+  /-- the fault index lies beyond the block's writes: the block completed, `x` is the state after the block -/
+  | completed : (applyBlock me n b).2.1 = .ok → x = (applyBlock me n b).1 → FaultOutcome me n b x
+  /-- the block was cut: nothing of its transaction survives (registry as before the block), the wallet is sane
+      and agrees with the wallet after the first steps `l1` of the block except on keys the rest `r` of the block
+      touches, the decided history is the one after `l1` -/
+  | restarted (l1 r : List Step) : blockMacros me n.reg b = l1 ++ r → x.reg = n.reg → Sane x.wal →
+      (∀ k, (k ∈ keysOf x.wal ↔ k ∈ keysOf (walRun n.wal l1)) ∨ some k ∈ r.map Step.kmKey) →
+      x.hist = histRun n.hist l1 → FaultOutcome me n b x
+
+theorem faultBlock_spec (me : Nat) (n : Node) (b : Block) (kind : FaultKind) (k : Nat)
     (hk : kind ≠ .retry) (hB : Boundary n) (hS : Sane n.wal)
     (hown : ∀ o ∈ n.reg.db.ops, o.pk = me → o.id = n.reg.self)
     (hhas : n.reg.self ≠ 0 → ∃ o ∈ n.reg.db.ops, o.id = n.reg.self ∧ o.pk = me)
     (hnp : (regEvents me b.number (beginReg n.reg) b.events).2 = false)
-    (hv1 : n.reg.db.marker.getD 0 < b.number) (hv2 : ∀ c ∈ rest, b.number < c.number)
+    (hv1 : n.reg.db.marker.getD 0 < b.number)
     (hgood : (faultBlock me n b kind k).2 ≠ .faultedBad) :
-    SameOutcome (faultRun me n b rest kind k) (run me n (b :: rest)) := by
+    FaultOutcome me n b (faultBlock me n b kind k).1 := by
   have hafter : ∀ x, afterFault me kind x = restart me x := by
     intro x; cases kind <;> first | rfl | exact absurd rfl hk
   have hinf : inferior n b = false := by simp [inferior]; omega
@@ -338,7 +345,7 @@ theorem fault_resume (me : Nat) (n : Node) (b : Block) (rest : List Block) (kind
   obtain ⟨e1, e2, e3⟩ := runEventsBudget_eq me b.number (beginTxn n) b.events k
   have hbr : (beginTxn n).reg = beginReg n.reg := rfl
   rw [hbr] at e1 e2 e3
-  simp only [faultRun, faultBlock, hinf, Bool.false_eq_true, ↓reduceIte] at hgood ⊢
+  simp only [faultBlock, hinf, Bool.false_eq_true, ↓reduceIte] at hgood ⊢
   generalize hr : runEventsBudget me b.number (beginTxn n) b.events k = res at e1 e2 e3 hgood ⊢
   obtain ⟨n1, c, p⟩ := res
   simp only at e1 e2 e3 hgood ⊢
@@ -346,12 +353,9 @@ theorem fault_resume (me : Nat) (n : Node) (b : Block) (rest : List Block) (kind
   have resume : ∀ (x : Node) (l1 r : List Step), eventsMacros me b.number (beginReg n.reg) b.events = l1 ++ r →
       x.reg.db = n.reg.db → Sane (rebootWal x.wal) →
       (∀ key, (key ∈ keysOf (rebootWal x.wal) ↔ key ∈ keysOf (walRun n.wal l1)) ∨ some key ∈ r.map Step.kmKey) →
-      x.hist = histRun n.hist l1 →
-      SameOutcome (run me (restart me x) (resumeList (restart me x) (b :: rest))) (run me n (b :: rest)) := by
+      x.hist = histRun n.hist l1 → FaultOutcome me n b (restart me x) := by
     intro x l1 r hl hdb hsx hag hhx
-    have hreg := restart_reg me x n hdb hB hown hhas
-    rw [resumeList_same (restart me x) b rest n.reg.db.marker (by rw [hreg]) hv1 hv2]
-    exact resume_from me n (restart me x) b rest l1 r (hbm.trans hl) hreg hS hsx hag hhx
+    exact .restarted l1 r (hbm.trans hl) (restart_reg me x n hdb hB hown hhas) hsx hag hhx
   cases c with
   | bad => exact absurd rfl hgood
   | clean =>
@@ -388,7 +392,7 @@ theorem fault_resume (me : Nat) (n : Node) (b : Block) (rest : List Block) (kind
       have hms : Sane n1.wal := by rw [hmw]; exact walRun_sane _ hLh hS
       -- a cut in front of the marker write or in front of the commit: all effects of the events are there
       have late : ∀ x : Node, x.wal = n1.wal → x.hist = n1.hist → x.reg.db = n1.reg.db →
-          SameOutcome (run me (restart me x) (resumeList (restart me x) (b :: rest))) (run me n (b :: rest)) := by
+          FaultOutcome me n b (restart me x) := by
         intro x hw hh hd
         refine resume x _ [] (by simp) (hd.trans hmd) (by rw [hw, rebootWal_of_sane hms]; exact hms) ?_ (hh.trans hmh)
         intro key
@@ -411,16 +415,35 @@ theorem fault_resume (me : Nat) (n : Node) (b : Block) (rest : List Block) (kind
           have hab : applyBlock me n b = (runSteps n1 [.putMarker b.number, .commit], .ok, (runEvents me b.number (beginTxn n) b.events).2.1) := by
             simp only [applyBlock, hinf, Bool.false_eq_true, ↓reduceIte, hne]
             rw [hn1, ← hbr, ← runEvents_eq_runMacro]
-          have hmk : (applyStep (applyStep n1 (.putMarker b.number)) .commit).reg.db.marker = some b.number := by
-            simp [applyStep, stepReg]
-          rw [resumeList_next _ b rest hmk hv2]
-          have : run me n (b :: rest) = run me (applyStep (applyStep n1 (.putMarker b.number)) .commit) rest := by
-            simp only [run, hab]
-            rfl
-          rw [this]
-          refine SameOutcome.refl me _ rest ?_
-          simpa [applyStep, stepWal] using hms
+          exact .completed (by rw [hab]) (by rw [hab]; rfl)
 
+/-- A block that does not panic is interrupted by a crash or a failing write at write index `k` (anywhere: inside
+    the transaction, inside a key-manager call, inside the decided-history cleanup, at the marker write, at the
+    commit), the node restarts on what survived and resumes from the stored marker + 1. Unless the fault fell between
+    the account record and the wallet index of an AddShare, the stream ends exactly where the uninterrupted run ends. -/
+theorem fault_resume (me : Nat) (n : Node) (b : Block) (rest : List Block) (kind : FaultKind) (k : Nat)
+    (hk : kind ≠ .retry) (hB : Boundary n) (hS : Sane n.wal)
+    (hown : ∀ o ∈ n.reg.db.ops, o.pk = me → o.id = n.reg.self)
+    (hhas : n.reg.self ≠ 0 → ∃ o ∈ n.reg.db.ops, o.id = n.reg.self ∧ o.pk = me)
+    (hnp : (regEvents me b.number (beginReg n.reg) b.events).2 = false)
+    (hv1 : n.reg.db.marker.getD 0 < b.number) (hv2 : ∀ c ∈ rest, b.number < c.number)
+    (hgood : (faultBlock me n b kind k).2 ≠ .faultedBad) :
+    SameOutcome (faultRun me n b rest kind k) (run me n (b :: rest)) := by
+  simp only [faultRun]
+  cases faultBlock_spec me n b kind k hk hB hS hown hhas hnp hv1 hgood with
+  | completed hok hx =>
+    rw [hx]
+    obtain ⟨_, _, heq⟩ := applyBlock_ok_eq me n b hok
+    have hmk : (applyBlock me n b).1.reg.db.marker = some b.number := by rw [heq, commit_reg]; rfl
+    rw [resumeList_next _ b rest hmk hv2]
+    have : run me n (b :: rest) = run me (applyBlock me n b).1 rest := by simp only [run, hok]
+    rw [this]
+    refine SameOutcome.refl me _ rest ?_
+    rw [(applyBlock_wal_hist me n b).1]
+    exact walRun_sane _ (blockMacros_handler me n.reg b) hS
+  | restarted l1 r hL hreg hsx hag hhx =>
+    rw [resumeList_same _ b rest n.reg.db.marker (by rw [hreg]) hv1 hv2]
+    exact resume_from me n _ b rest l1 r hL hreg hS hsx hag hhx
 
 /-! ## no key is stored twice in a sane wallet; the committed registry survives every fault -/
 
